@@ -198,7 +198,9 @@ func (c *checker) deleteRange(s *server, e *sim.Ev) {
 	trunc := false
 	var ae *rpcRec
 	for _, r := range c.inflight[s.name] {
-		if r.kind != "ae" {
+		if r.kind != "ae" || (min == lo && max <= S) {
+			// a delete from the first index on that stays under the snapshot is the compaction of
+			// the snapshot routine, whatever AppendEntries happens to be in flight at that moment
 			continue
 		}
 		for _, en := range r.ents {
